@@ -64,6 +64,10 @@ Run(bs, i, st) ==
     ELSE [st EXCEPT !.bad = "bad-byte"]
 
 Lvl(c) == (c * 100 + 127) \div 255        \* round(c / 2.55)
+Abs(x) == IF x < 0 THEN -x ELSE x
+\* equal up to `tol` levels per channel (tol = 1 for images with translucent pixels: the handler rounds the channels to
+\* the 0..100 grid before compositing, the reference composites first)
+Near(a, b, tol) == \A k \in 1..3 : Abs(a[k] - b[k]) <= tol
 \* large images (palette built from a sample of the pixels): only the control items, extracted by the harness
 BigVerdict(r) ==
   LET defs == { N(r.defs[i]) : i \in 1..Len(r.defs) }
@@ -91,7 +95,7 @@ Verdict(r) ==
           ELSE IF st.w # r.w \/ st.h # H6 THEN "declared size differs from (width, 6*floor(h/6))"
           ELSE IF DOMAIN st.pix # all THEN "not every pixel of the raster is painted"
           ELSE IF ~r.same THEN "a second draw of the same image emitted different bytes"
-          ELSE IF Cardinality(distinct) <= 256 /\ \E p \in all : st.reg[st.pix[p]] # src(p) THEN "decoded picture differs from the source although its colours fit the palette"
+          ELSE IF Cardinality(distinct) <= 256 /\ \E p \in all : ~Near(st.reg[st.pix[p]], src(p), r.tol) THEN "decoded picture differs from the source although its colours fit the palette"
           ELSE "ok"
 Bad == SelectSeq([i \in 1..Len(Rec) |-> [id |-> Rec[i].id, why |-> Verdict(Rec[i])]], LAMBDA v : v.why # "ok")
 ASSUME ndJsonSerialize(IOEnv.OUT, Bad)
